@@ -2,6 +2,7 @@
 // the objects without going through the code under test (limbs of a uintwide_t, innermost rep).
 #include "vh.h"
 
+#include <cmath>
 #include <fstream>
 #include <string>
 
@@ -144,6 +145,232 @@ namespace c15 {
             if (kind == 'p') (parse_line<Ts>(tok), ...);
             alarm(0);
         }
+    }
+}
+
+////////////////////////////////////////////////////////////////////////////////
+// class template argument deduction and from_value
+
+namespace c15 {
+    // hex float (never decimal)
+    template<class F>
+    void prf(F x)
+    {
+        if constexpr (std::is_same_v<F, long double>)
+            printf("%La", x);
+        else
+            printf("%a", double(x));
+    }
+
+    // "<type>:<numerator>/<denominator>", read out of the members
+    template<class Fr>
+    void print_frac(Fr const& f)
+    {
+        fputs(tn<Fr>().c_str(), stdout);
+        putchar(':');
+        prv(f.numerator);
+        putchar('/');
+        prv(f.denominator);
+    }
+
+    // cnl::fraction{v} for the boundary lattice of a built-in integer type
+    template<class S>
+    void ctad_fraction_int(Rng& rng)
+    {
+        for (S v : vals<S>(rng, 4 * scale_from_env())) {
+            printf("C15 ctad fraction %s ", tn<S>().c_str());
+            prv(v);
+            fputs(" => ", stdout);
+            VH_RUN(cnl::fraction{v}, c15::print_frac)
+        }
+    }
+
+    // cnl::fraction{n, d}: both component types deduced
+    template<class N, class D>
+    void ctad_fraction2(Rng& rng)
+    {
+        auto ns = vals<N>(rng, 2, 64);
+        auto ds = vals<D>(rng, 2, 64);
+        for (std::size_t i = 0; i < ns.size() + ds.size(); ++i) {
+            N n = ns[i % ns.size()];
+            D d = ds[(i * 7 + 3) % ds.size()];
+            printf("C15 ctad fraction2 %s ", tn<N>().c_str());
+            prv(n);
+            printf(" %s ", tn<D>().c_str());
+            prv(d);
+            fputs(" => ", stdout);
+            VH_RUN((cnl::fraction{n, d}), c15::print_frac)
+        }
+    }
+
+    template<class F>
+    struct fl;
+    template<>
+    struct fl<float> {
+        static constexpr int prec = 24, digits = 31;
+    };
+    template<>
+    struct fl<double> {
+        static constexpr int prec = 53, digits = 63;
+    };
+    template<>
+    struct fl<long double> {
+        static constexpr int prec = 64, digits = 127;
+    };
+
+    template<class F>
+    void ctad_fraction_one(F xv)
+    {
+        printf("C15 ctad fraction %s ", tn<F>().c_str());
+        prf(xv);
+        fputs(" => ", stdout);
+        volatile F x = xv;
+        alarm(5);
+        VH_RUN(cnl::fraction{F(x)}, c15::print_frac)
+        alarm(0);
+    }
+
+    // cnl::fraction{x} for floating x: values whose numerator or denominator needs every width up to the
+    // one the deduction guide promises (sizeof(F) * CHAR_BIT bits), both signs
+    template<class F>
+    void ctad_fraction_float(Rng& rng)
+    {
+        constexpr int P = fl<F>::prec, W = fl<F>::digits;
+        std::vector<F> v;
+        auto push = [&](F x) {
+            // outside +-[2^-(W-1), 2^(W-1)) no fraction of the deduced type is near the value
+            F a = std::fabs(x);
+            if (x != 0 && !(a < std::ldexp(F(1), W - 1) && a >= std::ldexp(F(1), -(W - 1)))) return;
+            for (F y : v)
+                if (y == x) return;
+            v.push_back(x);
+            if (x != 0) v.push_back(-x);
+        };
+        push(F(0));
+        for (long double x : {0.5L, 0.25L, 0.1L, 1.0L / 3, 3.14285714285714285714L, 1.0L, 2.0L, 255.0L, 1e9L, 1e15L, 1e-15L, 1e19L, 1e-19L,
+                              1e-9L, 1e-5L, 1e5L, 4294967295.0L, 4294967296.0L, 9007199254740991.0L, 9223372036854775807.0L,
+                              9223372036854775808.0L, 18446744073709551615.0L, 18446744073709551616.0L, 1.5L, 0.75L, 1e30L, 1e-30L, 1e38L})
+            push(F(x));
+        // 2^k, 2^k - 1 (rounded to the format), 2^-k, (2^P - 1) * 2^-k
+        for (int k : {1, 7, 8, 15, 16, 23, 24, 30, 31, 32, 33, 52, 53, 54, 61, 62, 63, 64, 65, 100, 125, 126}) {
+            push(std::ldexp(F(1), k));
+            push(F(std::ldexp(F(1), k) - 1));
+            push(std::ldexp(F(1), -k));
+            push(std::ldexp(F(3), -k));
+            if (k < W - 1) push(F(std::ldexp(F(1), P) - 1) * std::ldexp(F(1), -k));
+        }
+        // random dyadic values m * 2^e with numerator and denominator inside the deduced width
+        for (int i = 0; i < 24 * scale_from_env(); ++i) {
+            int mb = 1 + rng.below(P);
+            std::uint64_t m = rng.next();
+            if (mb < 64) m &= (std::uint64_t(1) << mb) - 1;
+            m |= 1;
+            int e = -rng.below(W - 1);
+            if (rng.below(3) == 0) e = rng.below(W - 1 - mb > 0 ? W - 1 - mb : 1);
+            push(std::ldexp(F(m), e));
+        }
+        for (F x : v) ctad_fraction_one<F>(x);
+    }
+
+    inline bool ctad_wide()  // set by C15.py when the class C15.ctad_default_arguments is listed as open
+    {
+        static bool w = getenv("C15_CTAD_WIDE") != nullptr;
+        return w;
+    }
+
+#if !defined(__clang__) || __clang_major__ >= 19  // class template argument deduction for alias templates (P1814)
+    // the alias templates of the library have no deduction guides: T{v} takes the default arguments
+    template<class S>
+    void ctad_alias(Rng& rng)
+    {
+        for (S v : vals<S>(rng, 4 * scale_from_env())) {
+            bool fits = std::numeric_limits<S>::digits <= 31 || (v <= S(2147483647) && (!std::is_signed_v<S> || v >= S(-2147483647 - 1)));
+            if (!fits && !ctad_wide()) continue;
+#define C15_CTAD(NAME, EXPR) \
+    { \
+        printf("C15 ctad " NAME " %s ", tn<S>().c_str()); \
+        prv(v); \
+        fputs(" => ", stdout); \
+        VH_RUN(EXPR, c15::print_made) \
+    }
+            C15_CTAD("scaled_integer", cnl::scaled_integer{v})
+            C15_CTAD("elastic_integer", cnl::elastic_integer{v})
+            C15_CTAD("overflow_integer", cnl::overflow_integer{v})
+            C15_CTAD("rounding_integer", cnl::rounding_integer{v})
+            C15_CTAD("wide_integer", cnl::wide_integer{v})
+            // static_integer<31> has the symmetric range: the lowest int is not held either
+            if (ctad_wide() || !(std::is_signed_v<S> && std::numeric_limits<S>::digits >= 31 && (long long)v == -2147483647LL - 1)) C15_CTAD("static_integer", cnl::static_integer{v})
+#undef C15_CTAD
+        }
+    }
+
+    template<auto V>
+    void ctad_alias_c()
+    {
+#define C15_CTADC(NAME, EXPR) \
+    { \
+        fputs("C15 ctad " NAME " c ", stdout); \
+        prv(V); \
+        fputs(" => ", stdout); \
+        VH_RUN(EXPR, c15::print_made) \
+    }
+        C15_CTADC("scaled_integer", cnl::scaled_integer{cnl::constant<V>{}})
+        C15_CTADC("elastic_integer", cnl::elastic_integer{cnl::constant<V>{}})
+        C15_CTADC("overflow_integer", cnl::overflow_integer{cnl::constant<V>{}})
+        C15_CTADC("rounding_integer", cnl::rounding_integer{cnl::constant<V>{}})
+        C15_CTADC("wide_integer", cnl::wide_integer{cnl::constant<V>{}})
+        if (ctad_wide() || V != -2147483647 - 1) C15_CTADC("static_integer", cnl::static_integer{cnl::constant<V>{}})
+#undef C15_CTADC
+    }
+#endif
+
+    // from_value<Archetype>(constant<V>): through the helper function and through the public trait
+    template<class A, auto V>
+    void fv_c()
+    {
+        static std::string const an = tn<A>();
+        printf("C15 fv %s c ", an.c_str());
+        prv(V);
+        fputs(" => ", stdout);
+        VH_RUN((cnl::_impl::from_value<A>(cnl::constant<V>{})), c15::print_made)
+        printf("C15 fvt %s c ", an.c_str());
+        prv(V);
+        fputs(" => ", stdout);
+        VH_RUN((cnl::from_value<A, cnl::constant<V>>{}(cnl::constant<V>{})), c15::print_made)
+    }
+    template<class A, auto... Vs>
+    void fv_cs()
+    {
+        (fv_c<A, Vs>(), ...);
+    }
+
+    // from_value<Archetype>(v) for the boundary lattice of a built-in type
+    template<class A, class S>
+    void fv_v(Rng& rng)
+    {
+        static std::string const an = tn<A>();
+        for (S v : vals<S>(rng, 2 * scale_from_env(), 64)) {
+            printf("C15 fv %s %s ", an.c_str(), tn<S>().c_str());
+            prv(v);
+            fputs(" => ", stdout);
+            VH_RUN((cnl::_impl::from_value<A>(v)), c15::print_made)
+            printf("C15 fvt %s %s ", an.c_str(), tn<S>().c_str());
+            prv(v);
+            fputs(" => ", stdout);
+            VH_RUN((cnl::from_value<A, S>{}(v)), c15::print_made)
+        }
+    }
+    template<class A>
+    void fv_vs(Rng& rng)
+    {
+        fv_v<A, signed char>(rng);
+        fv_v<A, unsigned char>(rng);
+        fv_v<A, short>(rng);
+        fv_v<A, unsigned short>(rng);
+        fv_v<A, int>(rng);
+        fv_v<A, unsigned>(rng);
+        fv_v<A, long>(rng);
+        fv_v<A, unsigned long>(rng);
     }
 }
 
